@@ -60,6 +60,33 @@ def prange_rules(P, R):
                 continue
             i = loop.target.id
             local = _assigned_names(loop.body) | {i}
+            # loop-carried scalars: a name that is assigned in the body and READ in the same body before its assignment of this iteration carries a value from
+            # the previous iteration.  With prange the iterations are distributed over threads (each starts from the value before the loop, or a private copy):
+            # only reductions (`x += ...`) are supported as carried state
+            first_use = {}
+            order = []
+            for st_ in loop.body:
+                for n_ in ast.walk(st_):
+                    if isinstance(n_, ast.Name):
+                        order.append(n_)
+            order.sort(key=lambda n_: (n_.lineno, n_.col_offset))
+            assigned_top = {}
+            for st_ in loop.body:
+                if isinstance(st_, ast.Assign):
+                    for t_ in st_.targets:
+                        for n_ in ast.walk(t_):
+                            if isinstance(n_, ast.Name) and isinstance(n_.ctx, ast.Store):
+                                assigned_top.setdefault(n_.id, st_)
+            for nm_, st_ in assigned_top.items():
+                if nm_ == i:
+                    continue
+                reads_before = [n_ for n_ in order if n_.id == nm_ and isinstance(n_.ctx, ast.Load) and (n_.lineno, n_.col_offset) < (st_.lineno, st_.col_offset)
+                                and not any(n_ is y for y in ast.walk(st_))]
+                also_before_loop = any(isinstance(x, ast.Assign) and any(isinstance(t_, ast.Name) and t_.id == nm_ for t_ in x.targets) for x in walk_own(f.node) if getattr(x, 'lineno', 0) < loop.lineno)
+                if reads_before and also_before_loop:
+                    R.bad('C18.a', f, reads_before[0], f'`{nm_}` is read in the prange body before it is assigned there (line {st_.lineno}): it carries a value from the previous iteration. Iterations of a prange '
+                          f'loop run on different threads, each with its own copy of `{nm_}`: the first iteration of every thread\'s chunk starts from the value before the loop, so the result '
+                          'depends on the number of threads', construct=f'{f.qualname}: loop-carried {nm_} in prange')
             # indices owned by this iteration: the induction variable and inner loop variables whose range is a function of it (blocked loops)
             owned = {i}
             derived = {i}
@@ -436,6 +463,20 @@ def run(P, R, tier):
                     f'`{norm(shared[0]) if shared else ""}` in the pool task {g.name} fills a shared list as the calls FINISH: the results are in completion order, but the caller pairs them with its '
                     'inputs by position', construct=f'{g.qualname}: results collected in completion order')
     R.count('thread_pool_tasks', npool)
+    # the shuffle that orders tied rows is chosen by the caller (default: the task shuffle), not by ambient dask configuration or by what dask picks for the
+    # scheduler in use: the partd ('disk') shuffle returns rows with equal distance in a run- and schedule-dependent order
+    pp_ = P.func('spatialpandas.dask', 'DaskGeoDataFrame.pack_partitions')
+    amb = [c for c in astq.own_calls(pp_) if 'config' in norm(c.func) and norm(c.func).split('.')[-1] in ('get', 'set')]
+    dflt = None
+    a_ = pp_.node.args
+    pos_ = a_.posonlyargs + a_.args
+    for arg_, d_ in zip(pos_[len(pos_) - len(a_.defaults):], a_.defaults):
+        if 'shuffle' in arg_.arg:
+            dflt = d_
+    R.check(not amb and isinstance(dflt, ast.Constant) and isinstance(dflt.value, str), 'C18.g', pp_, amb[0] if amb else dflt,
+            'pack_partitions shuffles with the method the caller names (default: a fixed method), independent of ambient configuration',
+            f'the shuffle method of pack_partitions comes from `{norm(amb[0]) if amb else norm(dflt) if dflt is not None else "?"}`: without a distributed client dask then uses the partd (disk) shuffle, '
+            'which returns rows that tie on the Hilbert distance in a run- and schedule-dependent order', construct='pack_partitions: shuffle method fixed')
     common.evaluated_once(P, R, 'C18.c', 'concurrent pack_partitions_to_parquet calls (or any two calls in one process) that rely on it write into the same "unique" directories')
     # C18.e: objects shared between threads (arrays, indexes, frames) are not written by their query methods; only constructors and the
     # enumerated lazily-built caches store attributes (the check-then-build race of those caches is NOT decided, see module docstring)
